@@ -146,9 +146,9 @@ CHECKS.update({
    note=TB + 'bounded string model (capacity 9 / 5, unwinding assertions); the name map lookup (tolower, key concatenation, std::map::find, getFirstAvailable) is an environment stub returning an arbitrary message or none per key; call sites in the command handlers are outside the extraction reach.',
    ref='DESIGN.md I.2 (C16)'),
  'C18': dict(
-   technique='bounded CBMC checks (harness-enforced contracts) of the extracted RequestImpl::add HTTP branch against a decode-exactly-once specification (sscanf as a stub with a literal-format precondition) and of RequestImpl::split (TCP branch) against a character-level reference tokenizer',
+   technique='bounded CBMC checks (harness-enforced contracts) of the extracted RequestImpl::add HTTP branch against a decode-exactly-once specification (sscanf as a stub with a literal-format precondition) and of RequestImpl::split (TCP branch) against a character-level reference tokenizer; the static file branch of MainLoop::executeGet extracted as a function fragment (rule R16) with ifstream::open as a stub',
    level='other',
-   text='BOUNDED, partial: for every HTTP request line up to 14 characters the URI is proved to have every %XY escape decoded exactly once, left to right, and the sscanf format is proved to be the literal "%1x%1x" (never request text); for every TCP command line up to 9 characters with terminated quotes the argument list equals the reference tokenizer (blanks outside quotes separate once, a token starting with a quote extends to the token ending with that quote, quotes removed, blanks inside kept). The static file branch of executeGet (root confinement), the HTTP branch of split and MQTT topic matching (StringReplacer) are NOT decided in this revision.',
+   text='BOUNDED, partial: for every HTTP request line up to 14 characters the URI is proved to have every %XY escape decoded exactly once, left to right, and the sscanf format is proved to be the literal "%1x%1x" (never request text); for every TCP command line up to 9 characters with terminated quotes the argument list equals the reference tokenizer (blanks outside quotes separate once, a token starting with a quote extends to the token ending with that quote, quotes removed, blanks inside kept). the static file branch of executeGet opens at most one file, only for a URI that starts with / and contains neither .. nor //, and the opened name is exactly HTML root + URI (+ index.html for a directory) with a known content type (URIs up to 8 characters). The HTTP branch of split, the /data branch of executeGet and MQTT topic matching (StringReplacer) are NOT decided in this revision.',
    note=TB + 'bounded string model (capacity 14 / 9, unwinding assertions); sscanf stub reads two hex digits; istringstream/getline(delim) and vector<string> are value models; command lines with an unterminated quote are outside the specification.',
    ref='DESIGN.md I.2 (C18)'),
 })
